@@ -1,1 +1,632 @@
+(* Proofs about Model/Refcache.v: the invariant, its preservation by every op, and the
+   lemmas the C10 property theorems are closed with. *)
+From Coq Require Import List Arith ZArith Bool Lia.
 From SV Require Import Model.Refcache.
+Import ListNotations.
+
+(* ---------- list helpers ---------- *)
+Lemma upd_length {A} (l : list A) n x : length (upd l n x) = length l.
+Proof. revert n; induction l as [|a l IH]; intros [|n]; simpl; auto. Qed.
+
+Lemma nth_upd_eq {A} (l : list A) n x : n < length l -> nth_error (upd l n x) n = Some x.
+Proof. revert n; induction l as [|a l IH]; intros [|n] H; simpl in *; try lia; auto. apply IH; lia. Qed.
+
+Lemma nth_upd_ne {A} (l : list A) n m x : n <> m -> nth_error (upd l n x) m = nth_error l m.
+Proof. revert n m; induction l as [|a l IH]; intros [|n] [|m] H; simpl; auto; try lia. Qed.
+
+Lemma nth_app_new {A} (l : list A) x : nth_error (l ++ [x]) (length l) = Some x.
+Proof. rewrite nth_error_app2 by lia. rewrite Nat.sub_diag. reflexivity. Qed.
+
+Lemma nth_some_lt {A} (l : list A) n x : nth_error l n = Some x -> n < length l.
+Proof. intros H. apply nth_error_Some. congruence. Qed.
+
+Definition cnt {A} (p : A -> bool) (l : list A) := length (filter p l).
+
+Lemma cnt_app {A} (p : A -> bool) l1 l2 : cnt p (l1 ++ l2) = cnt p l1 + cnt p l2.
+Proof. unfold cnt. rewrite filter_app, app_length. reflexivity. Qed.
+
+Lemma cnt_upd {A} (p : A -> bool) l n x y :
+  nth_error l n = Some x ->
+  cnt p (upd l n y) + (if p x then 1 else 0) = cnt p l + (if p y then 1 else 0).
+Proof.
+  unfold cnt. revert n; induction l as [|a l IH]; intros [|n] H; simpl in *; try discriminate.
+  - inversion H; subst. destruct (p x), (p y); simpl; lia.
+  - specialize (IH _ H). destruct (p a); simpl; lia.
+Qed.
+
+Lemma count_occ_snoc l (i j : nat) :
+  count_occ Nat.eq_dec (l ++ [i]) j = count_occ Nat.eq_dec l j + (if Nat.eqb i j then 1 else 0).
+Proof.
+  rewrite count_occ_app. simpl. destruct (Nat.eq_dec i j) as [->|H].
+  - rewrite Nat.eqb_refl. reflexivity.
+  - apply Nat.eqb_neq in H. rewrite H. reflexivity.
+Qed.
+
+(* ---------- lru helpers ---------- *)
+Lemma find_in l k i : lru_find l k = Some i -> In (k, i) l.
+Proof.
+  induction l as [|[k' j] l IH]; simpl; [discriminate|].
+  destruct (Nat.eqb_spec k' k); intros H.
+  - inversion H; subst. auto.
+  - auto.
+Qed.
+
+Lemma find_none l k : lru_find l k = None -> forall i, ~ In (k, i) l.
+Proof.
+  induction l as [|[k' j] l IH]; simpl; intros H i; [tauto|].
+  destruct (Nat.eqb_spec k' k); [discriminate|].
+  intros [E|E]; [inversion E; congruence|]. eapply IH; eauto.
+Qed.
+
+Lemma in_find l k i : NoDup (map fst l) -> In (k, i) l -> lru_find l k = Some i.
+Proof.
+  induction l as [|[k' j] l IH]; simpl; intros ND H; [tauto|].
+  inversion ND as [|? ? Hn ND']; subst.
+  destruct H as [E|H].
+  - inversion E; subst. rewrite Nat.eqb_refl. reflexivity.
+  - destruct (Nat.eqb_spec k' k).
+    + subst. exfalso. apply Hn. change k with (fst (k, i)). apply in_map. exact H.
+    + auto.
+Qed.
+
+Lemma del_in l k k' i : In (k', i) (lru_del l k) <-> (In (k', i) l /\ k' <> k).
+Proof.
+  induction l as [|[k0 j] l IH]; simpl; [tauto|].
+  destruct (Nat.eqb_spec k0 k).
+  - subst. rewrite IH. split; [tauto|]. intros [[E|H] N]; [inversion E; congruence|tauto].
+  - simpl. rewrite IH. split.
+    + intros [E|[H N]]; [inversion E; subst; tauto|tauto].
+    + intros [[E|H] N]; [left; exact E|tauto].
+Qed.
+
+Lemma del_keys_in l k x : In x (map fst (lru_del l k)) -> In x (map fst l) /\ x <> k.
+Proof.
+  intros H. apply in_map_iff in H. destruct H as [[k' i] [E H]]. simpl in E. subst x.
+  apply del_in in H. destruct H as [H N]. split; [|exact N].
+  change k' with (fst (k', i)). apply in_map. exact H.
+Qed.
+
+Lemma del_nodup l k : NoDup (map fst l) -> NoDup (map fst (lru_del l k)).
+Proof.
+  induction l as [|[k0 j] l IH]; simpl; intros ND; [constructor|].
+  inversion ND as [|? ? Hn ND']; subst.
+  destruct (Nat.eqb_spec k0 k); [auto|].
+  simpl. constructor; [|auto].
+  intros H. apply del_keys_in in H. tauto.
+Qed.
+
+Lemma del_notin l k : ~ In k (map fst (lru_del l k)).
+Proof. intros H. apply del_keys_in in H. tauto. Qed.
+
+(* ---------- invariant ---------- *)
+Definition ent_ok (s : st) (i : nat) (e : ent) : Prop :=
+  e_refs e = ((if e_fin e then 0 else 1) + Z.of_nat (live s i))%Z
+  /\ callbacks s i = (if (e_refs e =? 0)%Z then 1 else 0)
+  /\ (e_fin e = false <-> In (e_key e, i) (lru s)).
+
+Record Inv (s : st) : Prop := mkInv {
+  inv_ent : forall i e, nth_error (ents s) i = Some e -> ent_ok s i e;
+  inv_nodup : NoDup (map fst (lru s));
+  inv_lru : forall k i, In (k, i) (lru s) -> exists e, nth_error (ents s) i = Some e /\ e_key e = k;
+  inv_hs : forall h i r, nth_error (hs s) h = Some (i, r) -> i < length (ents s);
+  inv_log : forall i, In i (log s) -> i < length (ents s)
+}.
+
+Lemma Inv_init c : Inv (init c).
+Proof.
+  constructor; simpl.
+  - intros [|i] e H; discriminate.
+  - constructor.
+  - tauto.
+  - intros [|h] i r H; discriminate.
+  - tauto.
+Qed.
+
+Definition hpred (i : nat) (h : nat * bool) : bool := Nat.eqb (fst h) i && negb (snd h).
+Lemma live_cnt s i : live s i = cnt (hpred i) (hs s).
+Proof. reflexivity. Qed.
+
+Lemma live_beyond s i : Inv s -> length (ents s) <= i -> live s i = 0.
+Proof.
+  intros I Hi. rewrite live_cnt. unfold cnt.
+  assert (Hf : forall l, (forall h, In h l -> fst h <> i) -> filter (hpred i) l = []).
+  { induction l as [|a l IH]; simpl; intros Hl; [reflexivity|].
+    unfold hpred at 1. destruct (Nat.eqb_spec (fst a) i) as [E|E].
+    - exfalso. apply (Hl a); auto.
+    - simpl. apply IH. intros h Hh. apply Hl. auto. }
+  rewrite Hf; [reflexivity|].
+  intros [j r] Hin. simpl. apply In_nth_error in Hin. destruct Hin as [n Hn].
+  apply (inv_hs _ I) in Hn. lia.
+Qed.
+
+Lemma callbacks_beyond s i : Inv s -> length (ents s) <= i -> callbacks s i = 0.
+Proof.
+  intros I Hi. unfold callbacks. apply count_occ_not_In. intros H. apply (inv_log _ I) in H. lia.
+Qed.
+
+(* ---------- acquire (inc + new done closure) ---------- *)
+Lemma acquire_inv s i : Inv s -> in_cache s i -> Inv (acquire s i).
+Proof.
+  intros I [k Hk].
+  destruct (inv_lru _ I _ _ Hk) as (e & He & Hkey). subst k.
+  pose proof (nth_some_lt _ _ _ He) as Hi.
+  destruct (inv_ent _ I _ _ He) as (R & C & F).
+  assert (Ef : e_fin e = false) by (apply F; exact Hk).
+  unfold acquire, inc. rewrite He.
+  constructor; simpl.
+  - intros j e' Hj. unfold ent_ok, callbacks. rewrite live_cnt. simpl.
+    rewrite cnt_app. unfold cnt at 2. simpl. unfold hpred at 2. simpl.
+    destruct (Nat.eq_dec i j) as [<-|Hne].
+    + rewrite nth_upd_eq in Hj by exact Hi. inversion Hj; subst; clear Hj. simpl.
+      rewrite Nat.eqb_refl. simpl. rewrite live_cnt in R. rewrite Ef in *.
+      split; [lia|]. split; [|exact F].
+      unfold callbacks in C. rewrite C.
+      destruct (Z.eqb_spec (e_refs e) 0); destruct (Z.eqb_spec (e_refs e + 1) 0); try lia.
+    + rewrite nth_upd_ne in Hj by exact Hne.
+      destruct (inv_ent _ I _ _ Hj) as (R' & C' & F').
+      apply Nat.eqb_neq in Hne. rewrite Hne. simpl. rewrite live_cnt in R'.
+      split; [lia|]. split; [exact C'|exact F'].
+  - apply (inv_nodup _ I).
+  - intros k j Hin. destruct (inv_lru _ I _ _ Hin) as (e' & He' & Hk').
+    destruct (Nat.eq_dec i j) as [<-|Hne].
+    + rewrite nth_upd_eq by exact Hi. rewrite He in He'. inversion He'; subst. eexists; split; reflexivity.
+    + rewrite nth_upd_ne by exact Hne. eauto.
+  - intros h j r Hh. rewrite upd_length.
+    destruct (Nat.lt_ge_cases h (length (hs s))) as [Hlt|Hge].
+    + rewrite nth_error_app1 in Hh by exact Hlt. eapply inv_hs; eauto.
+    + rewrite nth_error_app2 in Hh by exact Hge.
+      destruct (h - length (hs s)) as [|n]; simpl in Hh; [inversion Hh; subst; exact Hi|destruct n; discriminate].
+  - intros j Hj. rewrite upd_length. apply (inv_log _ I). exact Hj.
+Qed.
+
+(* ---------- explicit forms of dec / finalize ---------- *)
+Lemma upd_upd {A} (l : list A) n x y : upd (upd l n x) n y = upd l n y.
+Proof. revert n; induction l as [|a l IH]; intros [|n]; simpl; auto. f_equal. apply IH. Qed.
+
+Lemma dec_eq s i e : nth_error (ents s) i = Some e ->
+  dec s i = mkSt (cap s) (lru s) (upd (ents s) i (mkEnt (e_key e) (e_refs e - 1) (e_fin e))) (hs s)
+                 (if (e_refs e - 1 <=? 0)%Z then log s ++ [i] else log s).
+Proof. intros H. unfold dec. rewrite H. destruct (e_refs e - 1 <=? 0)%Z; reflexivity. Qed.
+
+Lemma finalize_live s i e : nth_error (ents s) i = Some e -> e_fin e = false ->
+  finalize s i = mkSt (cap s) (lru s) (upd (ents s) i (mkEnt (e_key e) (e_refs e - 1) true)) (hs s)
+                      (if (e_refs e - 1 <=? 0)%Z then log s ++ [i] else log s).
+Proof.
+  intros H Hf. unfold finalize. rewrite H, Hf.
+  erewrite dec_eq; simpl.
+  2:{ apply nth_upd_eq. eapply nth_some_lt; eauto. }
+  simpl. rewrite upd_upd. reflexivity.
+Qed.
+
+Lemma finalize_done s i e : nth_error (ents s) i = Some e -> e_fin e = true -> finalize s i = s.
+Proof. intros H Hf. unfold finalize. rewrite H, Hf. reflexivity. Qed.
+
+(* ---------- reordering the recency list ---------- *)
+Lemma Inv_lru_perm s l' :
+  Inv s -> (forall k i, In (k, i) l' <-> In (k, i) (lru s)) -> NoDup (map fst l') -> Inv (set_lru s l').
+Proof.
+  intros I Hiff ND. constructor; simpl.
+  - intros i e He. destruct (inv_ent _ I _ _ He) as (R & C & F).
+    unfold ent_ok. split; [exact R|]. split; [exact C|]. simpl. rewrite Hiff. exact F.
+  - exact ND.
+  - intros k i Hin. apply Hiff in Hin. eapply inv_lru; eauto.
+  - apply (inv_hs _ I).
+  - apply (inv_log _ I).
+Qed.
+
+Lemma find_notin_keys l k : lru_find l k = None -> ~ In k (map fst l).
+Proof.
+  intros H Hin. apply in_map_iff in Hin. destruct Hin as [[k' i] [E Hin]]. simpl in E. subst k'.
+  eapply find_none; eauto.
+Qed.
+
+Lemma touch_inv s k i : Inv s -> lru_find (lru s) k = Some i -> Inv (touch s k i).
+Proof.
+  intros I Hf. unfold touch. apply Inv_lru_perm; [exact I| |].
+  - intros k' j. simpl. rewrite del_in. split.
+    + intros [E|[H _]]; [inversion E; subst; apply find_in; exact Hf|exact H].
+    + intros H. destruct (Nat.eq_dec k' k) as [->|N]; [|tauto].
+      left. apply (in_find _ _ _ (inv_nodup _ I)) in H. congruence.
+  - simpl. constructor; [apply del_notin|apply del_nodup; apply (inv_nodup _ I)].
+Qed.
+
+Lemma touch_in_cache s k i : lru_find (lru s) k = Some i -> in_cache (touch s k i) i.
+Proof. intros _. exists k. simpl. auto. Qed.
+
+(* ---------- eviction from the cache (Remove / Expire / capacity / evicting release) ---------- *)
+Lemma evict_key_inv s k : Inv s -> Inv (evict_key s k).
+Proof.
+  intros I. unfold evict_key. destruct (lru_find (lru s) k) as [i|] eqn:Hf; [|exact I].
+  pose proof (find_in _ _ _ Hf) as Hin.
+  destruct (inv_lru _ I _ _ Hin) as (e & He & Hkey).
+  destruct (inv_ent _ I _ _ He) as (R & C & F).
+  assert (Ef : e_fin e = false) by (apply F; rewrite Hkey; exact Hin).
+  pose proof (nth_some_lt _ _ _ He) as Hi.
+  erewrite finalize_live; simpl; eauto.
+  rewrite Ef in R.
+  constructor; simpl.
+  - intros j e' Hj. unfold ent_ok, callbacks. rewrite live_cnt. simpl.
+    destruct (Nat.eq_dec i j) as [<-|Hne].
+    + rewrite nth_upd_eq in Hj by exact Hi. inversion Hj; subst e'; clear Hj. simpl.
+      rewrite live_cnt in R. split; [lia|]. split.
+      * unfold callbacks in C.
+        destruct (Z.leb_spec (e_refs e - 1) 0).
+        -- rewrite count_occ_snoc, Nat.eqb_refl, C.
+           destruct (Z.eqb_spec (e_refs e) 0); destruct (Z.eqb_spec (e_refs e - 1) 0); lia.
+        -- rewrite C. destruct (Z.eqb_spec (e_refs e) 0); destruct (Z.eqb_spec (e_refs e - 1) 0); lia.
+      * split; [discriminate|]. intros H. apply del_in in H. rewrite Hkey in H. tauto.
+    + rewrite nth_upd_ne in Hj by exact Hne.
+      destruct (inv_ent _ I _ _ Hj) as (R' & C' & F').
+      split; [exact R'|]. split.
+      * unfold callbacks in C'. destruct (e_refs e - 1 <=? 0)%Z; [|exact C'].
+        rewrite count_occ_snoc. apply Nat.eqb_neq in Hne. rewrite Hne. lia.
+      * rewrite F'. rewrite del_in. split; [|tauto].
+        intros H. split; [exact H|]. intros Ek. rewrite Ek in H.
+        apply (in_find _ _ _ (inv_nodup _ I)) in H. congruence.
+  - apply del_nodup. apply (inv_nodup _ I).
+  - intros k' j H. apply del_in in H. destruct H as [H _].
+    destruct (inv_lru _ I _ _ H) as (e' & He' & Hk').
+    destruct (Nat.eq_dec i j) as [<-|Hne].
+    + rewrite nth_upd_eq by exact Hi. rewrite He in He'. inversion He'; subst. eexists; split; reflexivity.
+    + rewrite nth_upd_ne by exact Hne. eauto.
+  - intros h j r Hh. rewrite upd_length. eapply inv_hs; eauto.
+  - intros j Hj. rewrite upd_length. destruct (e_refs e - 1 <=? 0)%Z.
+    + apply in_app_or in Hj. destruct Hj as [Hj|[<-|[]]]; [apply (inv_log _ I); exact Hj|exact Hi].
+    + apply (inv_log _ I); exact Hj.
+Qed.
+
+Lemma trim_inv s : Inv s -> Inv (trim s).
+Proof.
+  intros I. unfold trim.
+  destruct (negb (cap s =? 0) && (cap s <? length (lru s))); [|exact I].
+  destruct (last (map Some (lru s)) None) as [[k i]|]; [apply evict_key_inv; exact I|exact I].
+Qed.
+
+(* ---------- release (done closure) ---------- *)
+Lemma release_dec_inv s h i :
+  Inv s -> nth_error (hs s) h = Some (i, false) -> Inv (dec (set_hs s (upd (hs s) h (i, true))) i).
+Proof.
+  intros I Hh.
+  pose proof (inv_hs _ I _ _ _ Hh) as Hi.
+  destruct (nth_error (ents s) i) as [e|] eqn:He; [|apply nth_error_None in He; lia].
+  destruct (inv_ent _ I _ _ He) as (R & C & F).
+  erewrite dec_eq; simpl; eauto.
+  assert (Hcnt : forall j, cnt (hpred j) (upd (hs s) h (i, true)) + (if Nat.eqb i j then 1 else 0) = cnt (hpred j) (hs s)).
+  { intros j. pose proof (cnt_upd (hpred j) _ _ _ (i, true) Hh) as Hc.
+    replace (hpred j (i, false)) with (Nat.eqb i j) in Hc by (unfold hpred; simpl; rewrite andb_true_r; reflexivity).
+    replace (hpred j (i, true)) with false in Hc by (unfold hpred; simpl; rewrite andb_false_r; reflexivity).
+    lia. }
+  constructor; simpl.
+  - intros j e' Hj. unfold ent_ok, callbacks. rewrite live_cnt. simpl.
+    specialize (Hcnt j).
+    destruct (Nat.eq_dec i j) as [<-|Hne].
+    + rewrite nth_upd_eq in Hj by exact Hi. inversion Hj; subst e'; clear Hj. simpl.
+      rewrite Nat.eqb_refl in Hcnt. rewrite live_cnt in R.
+      assert (Hr : (1 <= e_refs e)%Z) by (destruct (e_fin e); lia).
+      split; [lia|]. split; [|exact F].
+      unfold callbacks in C.
+      destruct (Z.leb_spec (e_refs e - 1) 0).
+      * rewrite count_occ_snoc, Nat.eqb_refl, C.
+        destruct (Z.eqb_spec (e_refs e) 0); destruct (Z.eqb_spec (e_refs e - 1) 0); lia.
+      * rewrite C. destruct (Z.eqb_spec (e_refs e) 0); destruct (Z.eqb_spec (e_refs e - 1) 0); lia.
+    + rewrite nth_upd_ne in Hj by exact Hne.
+      destruct (inv_ent _ I _ _ Hj) as (R' & C' & F').
+      pose proof Hne as Hne'. apply Nat.eqb_neq in Hne'. rewrite Hne' in Hcnt. rewrite live_cnt in R'.
+      split; [lia|]. split; [|exact F'].
+      unfold callbacks in C'. destruct (e_refs e - 1 <=? 0)%Z; [|exact C'].
+      rewrite count_occ_snoc, Hne'. lia.
+  - apply (inv_nodup _ I).
+  - intros k j H. destruct (inv_lru _ I _ _ H) as (e' & He' & Hk').
+    destruct (Nat.eq_dec i j) as [<-|Hne].
+    + rewrite nth_upd_eq by exact Hi. rewrite He in He'. inversion He'; subst. eexists; split; reflexivity.
+    + rewrite nth_upd_ne by exact Hne. eauto.
+  - intros h' j r Hh'. rewrite upd_length.
+    destruct (Nat.eq_dec h h') as [<-|Hne].
+    + rewrite nth_upd_eq in Hh' by (eapply nth_some_lt; eauto). inversion Hh'; subst. exact Hi.
+    + rewrite nth_upd_ne in Hh' by exact Hne. eapply inv_hs; eauto.
+  - intros j Hj. rewrite upd_length. destruct (e_refs e - 1 <=? 0)%Z.
+    + apply in_app_or in Hj. destruct Hj as [Hj|[<-|[]]]; [apply (inv_log _ I); exact Hj|exact Hi].
+    + apply (inv_log _ I); exact Hj.
+Qed.
+
+(* the "if evict" part of TTLCache's done closure *)
+Definition rel_evict (s : st) (i : nat) : st :=
+  let s' := finalize s i in
+  match nth_error (ents s') i with
+  | Some e =>
+      match lru_find (lru s') (e_key e) with
+      | Some j => if Nat.eqb j i then set_lru s' (lru_del (lru s') (e_key e)) else s'
+      | None => s'
+      end
+  | None => s'
+  end.
+
+Lemma rel_evict_cases s i e :
+  Inv s -> nth_error (ents s) i = Some e ->
+  rel_evict s i = if e_fin e then s else evict_key s (e_key e).
+Proof.
+  intros I He. destruct (inv_ent _ I _ _ He) as (R & C & F).
+  unfold rel_evict. destruct (e_fin e) eqn:Ef.
+  - rewrite (finalize_done _ _ _ He Ef). rewrite He.
+    destruct (lru_find (lru s) (e_key e)) as [j|] eqn:Hf; [|reflexivity].
+    destruct (Nat.eqb_spec j i) as [->|]; [|reflexivity].
+    apply find_in in Hf. apply F in Hf. congruence.
+  - assert (Hin : In (e_key e, i) (lru s)) by (apply F; reflexivity).
+    pose proof (in_find _ _ _ (inv_nodup _ I) Hin) as Hf.
+    rewrite (finalize_live _ _ _ He Ef). simpl.
+    rewrite nth_upd_eq by (eapply nth_some_lt; eauto). simpl.
+    rewrite Hf, Nat.eqb_refl.
+    unfold evict_key. rewrite Hf.
+    erewrite finalize_live; simpl; eauto. reflexivity.
+Qed.
+
+Lemma rel_evict_inv s i : Inv s -> i < length (ents s) -> Inv (rel_evict s i).
+Proof.
+  intros I Hi. destruct (nth_error (ents s) i) as [e|] eqn:He; [|apply nth_error_None in He; lia].
+  rewrite (rel_evict_cases _ _ _ I He). destruct (e_fin e); [exact I|apply evict_key_inv; exact I].
+Qed.
+
+(* ---------- Add of a fresh key ---------- *)
+Definition add_new (s : st) (k : nat) : st :=
+  let i := length (ents s) in
+  let s1 := set_ents s (ents s ++ [mkEnt k 1 false]) in
+  let s2 := acquire s1 i in
+  set_lru s2 ((k, i) :: lru s2).
+
+Lemma add_new_inv s k : Inv s -> lru_find (lru s) k = None -> Inv (add_new s k).
+Proof.
+  intros I Hf. unfold add_new, acquire, inc. simpl.
+  rewrite nth_app_new. simpl.
+  set (i := length (ents s)).
+  assert (Hlen : length (upd (ents s ++ [mkEnt k 1 false]) i (mkEnt k 2 false)) = S i)
+    by (rewrite upd_length, app_length; simpl; lia).
+  assert (Hold : forall j, j <> i -> nth_error (upd (ents s ++ [mkEnt k 1 false]) i (mkEnt k 2 false)) j = nth_error (ents s) j).
+  { intros j Hj. rewrite nth_upd_ne by auto.
+    destruct (Nat.lt_ge_cases j i) as [Hlt|Hge].
+    - apply nth_error_app1. exact Hlt.
+    - assert (nth_error (ents s) j = None) as -> by (apply nth_error_None; fold i; lia).
+      apply nth_error_None. rewrite app_length. simpl. fold i. lia. }
+  constructor; simpl.
+  - intros j e' Hj. unfold ent_ok, callbacks. rewrite live_cnt. simpl.
+    rewrite cnt_app. unfold cnt at 2. simpl. unfold hpred at 2. simpl.
+    destruct (Nat.eq_dec i j) as [<-|Hne].
+    + rewrite nth_upd_eq in Hj by (rewrite app_length; simpl; fold i; lia).
+      inversion Hj; subst e'; clear Hj. simpl. rewrite Nat.eqb_refl. simpl.
+      pose proof (live_beyond s i I (Nat.le_refl _)) as L. rewrite live_cnt in L. rewrite L.
+      split; [reflexivity|]. split; [|split; auto].
+      apply (callbacks_beyond s i I). apply Nat.le_refl.
+    + rewrite Hold in Hj by auto.
+      destruct (inv_ent _ I _ _ Hj) as (R' & C' & F').
+      pose proof Hne as Hne'. apply Nat.eqb_neq in Hne'. rewrite Hne'. simpl. rewrite live_cnt in R'.
+      split; [lia|]. split; [exact C'|].
+      rewrite F'. split; [auto|]. intros [E|H]; [inversion E; congruence|exact H].
+  - constructor; [apply find_notin_keys; exact Hf|apply (inv_nodup _ I)].
+  - intros k' j [E|H].
+    + inversion E; subst k' j. rewrite nth_upd_eq by (rewrite app_length; simpl; fold i; lia).
+      eexists; split; reflexivity.
+    + destruct (inv_lru _ I _ _ H) as (e' & He' & Hk').
+      rewrite Hold; [eauto|]. apply nth_some_lt in He'. fold i in He'. lia.
+  - intros h j r Hh. rewrite Hlen.
+    destruct (Nat.lt_ge_cases h (length (hs s))) as [Hlt|Hge].
+    + rewrite nth_error_app1 in Hh by exact Hlt. apply (inv_hs _ I) in Hh. fold i in Hh. lia.
+    + rewrite nth_error_app2 in Hh by exact Hge.
+      destruct (h - length (hs s)) as [|n]; simpl in Hh; [inversion Hh; subst; lia|destruct n; discriminate].
+  - intros j Hj. rewrite Hlen. apply (inv_log _ I) in Hj. fold i in Hj. lia.
+Qed.
+
+(* ---------- every op preserves the invariant ---------- *)
+Theorem step_inv s o : Inv s -> Inv (fst (step s o)).
+Proof.
+  intros I. destruct o as [k|k|k|k|h ev]; simpl.
+  - destruct (lru_find (lru s) k) as [i|] eqn:Hf; simpl.
+    + apply acquire_inv; [apply touch_inv; assumption|apply touch_in_cache; assumption].
+    + apply trim_inv. apply (add_new_inv s k I Hf).
+  - destruct (lru_find (lru s) k) as [i|] eqn:Hf; simpl; [|exact I].
+    apply acquire_inv; [apply touch_inv; assumption|apply touch_in_cache; assumption].
+  - apply evict_key_inv; exact I.
+  - apply evict_key_inv; exact I.
+  - destruct (nth_error (hs s) h) as [[i fired]|] eqn:Hh; simpl; [|exact I].
+    assert (I1 : Inv (if fired then s else dec (set_hs s (upd (hs s) h (i, true))) i)).
+    { destruct fired; [exact I|apply release_dec_inv; assumption]. }
+    destruct ev; [|exact I1].
+    apply (rel_evict_inv _ i I1).
+    pose proof (inv_hs _ I _ _ _ Hh) as Hi.
+    destruct fired; [exact Hi|].
+    unfold dec; simpl. destruct (nth_error (ents s) i); [|exact Hi].
+    destruct (_ <=? 0)%Z; simpl; rewrite upd_length; exact Hi.
+Qed.
+
+Theorem exec_inv os : forall s, Inv s -> Inv (exec s os).
+Proof.
+  unfold exec. induction os as [|o os IH]; simpl; intros s I; [exact I|].
+  apply IH. apply step_inv. exact I.
+Qed.
+
+Theorem reach_inv c os : Inv (exec (init c) os).
+Proof. apply exec_inv. apply Inv_init. Qed.
+
+(* ---------- consequences used by Properties/C10.v ---------- *)
+Lemma in_cache_key s i e : Inv s -> nth_error (ents s) i = Some e -> (in_cache s i <-> In (e_key e, i) (lru s)).
+Proof.
+  intros I He. split; [|intros H; eexists; exact H].
+  intros [k Hk]. destruct (inv_lru _ I _ _ Hk) as (e' & He' & Hkey). rewrite He in He'. inversion He'; subst. exact Hk.
+Qed.
+
+Lemma exactly_once_inv s i e :
+  Inv s -> nth_error (ents s) i = Some e ->
+  callbacks s i <= 1 /\ (callbacks s i = 1 <-> (~ in_cache s i /\ live s i = 0)).
+Proof.
+  intros I He. destruct (inv_ent _ I _ _ He) as (R & C & F).
+  rewrite (in_cache_key _ _ _ I He). rewrite C.
+  destruct (Z.eqb_spec (e_refs e) 0) as [Hz|Hz].
+  - split; [lia|]. split; [intros _|reflexivity].
+    destruct (e_fin e); [|lia]. split; [|lia]. intros H. apply F in H. discriminate.
+  - split; [lia|]. split; [discriminate|]. intros [Hn Hl]. exfalso. apply Hz.
+    destruct (e_fin e); [lia|]. exfalso. apply Hn. apply F. reflexivity.
+Qed.
+
+Lemma held_not_finalized s i : Inv s -> 0 < live s i -> callbacks s i = 0.
+Proof.
+  intros I Hl. destruct (nth_error (ents s) i) as [e|] eqn:He.
+  - destruct (exactly_once_inv _ _ _ I He) as (Hle & Hiff).
+    destruct (callbacks s i) as [|[|n]]; [reflexivity| |lia].
+    destruct Hiff as [H _]. specialize (H eq_refl). lia.
+  - apply callbacks_beyond; [exact I|]. apply nth_error_None. exact He.
+Qed.
+
+Lemma cached_not_finalized s i : Inv s -> in_cache s i -> callbacks s i = 0.
+Proof.
+  intros I Hc. destruct Hc as [k Hk]. destruct (inv_lru _ I _ _ Hk) as (e & He & _).
+  destruct (exactly_once_inv _ _ _ I He) as (Hle & Hiff).
+  destruct (callbacks s i) as [|[|n]]; [reflexivity| |lia].
+  destruct Hiff as [H _]. specialize (H eq_refl). exfalso. apply (proj1 H). exists k. exact Hk.
+Qed.
+
+(* the callbacks never forget: the log only grows, and the per-op outputs are exactly its increments *)
+Lemma dec_log s i : exists l, log (dec s i) = log s ++ l.
+Proof.
+  unfold dec. destruct (nth_error (ents s) i); [|exists []; rewrite app_nil_r; reflexivity].
+  destruct (_ <=? 0)%Z; simpl; [eexists; reflexivity|exists []; rewrite app_nil_r; reflexivity].
+Qed.
+
+Lemma finalize_log s i : exists l, log (finalize s i) = log s ++ l.
+Proof.
+  unfold finalize. destruct (nth_error (ents s) i) as [e|]; [|exists []; rewrite app_nil_r; reflexivity].
+  destruct (e_fin e); [exists []; rewrite app_nil_r; reflexivity|].
+  match goal with |- context [dec ?s' i] => destruct (dec_log s' i) as [l Hl]; rewrite Hl end.
+  simpl. eexists; reflexivity.
+Qed.
+
+Lemma evict_key_log s k : exists l, log (evict_key s k) = log s ++ l.
+Proof.
+  unfold evict_key. destruct (lru_find (lru s) k); [|exists []; rewrite app_nil_r; reflexivity].
+  match goal with |- context [finalize ?s' ?i] => destruct (finalize_log s' i) as [l Hl]; rewrite Hl end.
+  simpl. eexists; reflexivity.
+Qed.
+
+Lemma step_add_new s k : lru_find (lru s) k = None ->
+  step s (Add k) = (trim (add_new s k), Some (length (ents s), true)).
+Proof. intros H. simpl. rewrite H. reflexivity. Qed.
+
+Lemma add_new_log s k : log (add_new s k) = log s.
+Proof. unfold add_new, acquire, inc. simpl. destruct (nth_error _ _); reflexivity. Qed.
+
+Lemma trim_log s : exists l, log (trim s) = log s ++ l.
+Proof.
+  assert (Hnil : exists l, log s = log s ++ l) by (exists []; rewrite app_nil_r; reflexivity).
+  unfold trim. destruct (_ && _); [|exact Hnil].
+  destruct (last _ _) as [[k' i']|]; [apply evict_key_log|exact Hnil].
+Qed.
+
+Lemma step_log s o : exists l, log (fst (step s o)) = log s ++ l.
+Proof.
+  assert (Hnil : exists l, log s = log s ++ l) by (exists []; rewrite app_nil_r; reflexivity).
+  destruct o as [k|k|k|k|h ev].
+  - destruct (lru_find (lru s) k) as [i|] eqn:Hf.
+    + simpl. rewrite Hf. simpl. unfold acquire, inc, touch; simpl. destruct (nth_error (ents s) i); simpl; exact Hnil.
+    + rewrite (step_add_new _ _ Hf). simpl.
+      destruct (trim_log (add_new s k)) as [l Hl]. rewrite Hl, add_new_log. eexists; reflexivity.
+  - simpl. destruct (lru_find (lru s) k) as [i|]; simpl; [|exact Hnil].
+    unfold acquire, inc, touch; simpl. destruct (nth_error (ents s) i); simpl; exact Hnil.
+  - apply evict_key_log.
+  - apply evict_key_log.
+  - simpl. destruct (nth_error (hs s) h) as [[i fired]|]; simpl; [|exact Hnil].
+    assert (H1 : exists l, log (if fired then s else dec (set_hs s (upd (hs s) h (i, true))) i) = log s ++ l).
+    { destruct fired; [exact Hnil|]. match goal with |- context [dec ?s' i] => destruct (dec_log s' i) as [l Hl]; rewrite Hl end.
+      simpl. eexists; reflexivity. }
+    destruct ev; [|exact H1].
+    destruct H1 as [l1 H1].
+    match goal with |- context [finalize ?s' i] => destruct (finalize_log s' i) as [l2 H2]; set (sf := finalize s' i) in * end.
+    assert (Hsf : log sf = log s ++ (l1 ++ l2)) by (rewrite H2, H1, app_assoc; reflexivity).
+    destruct (nth_error (ents sf) i) as [e|]; [|eexists; exact Hsf].
+    destruct (lru_find (lru sf) (e_key e)) as [j|]; [|eexists; exact Hsf].
+    destruct (j =? i); simpl; eexists; exact Hsf.
+Qed.
+
+Lemma run_exec os : forall s, fst (run s os) = exec s os.
+Proof.
+  unfold exec. induction os as [|o os IH]; simpl; intros s; [reflexivity|].
+  unfold step_out. destruct (step s o) as [s' r] eqn:Hs. simpl.
+  specialize (IH s'). destruct (run s' os) as [s2 xs]. simpl in *. exact IH.
+Qed.
+
+Lemma run_outputs os : forall s, log (exec s os) = log s ++ concat (map snd (snd (run s os))).
+Proof.
+  unfold exec. induction os as [|o os IH]; simpl; intros s; [rewrite app_nil_r; reflexivity|].
+  unfold step_out. destruct (step s o) as [s' r] eqn:Hs. simpl.
+  specialize (IH s'). destruct (run s' os) as [s2 xs] eqn:Hr. simpl in *.
+  destruct (step_log s o) as [l Hl]. rewrite Hs in Hl. simpl in Hl.
+  rewrite IH, Hl. rewrite skipn_app, skipn_all, Nat.sub_diag. simpl. rewrite app_assoc. reflexivity.
+Qed.
+
+(* double release *)
+Lemma release_fired_noevict s h i : nth_error (hs s) h = Some (i, true) -> step s (Release h false) = (s, None).
+Proof. intros H. simpl. rewrite H. reflexivity. Qed.
+
+Lemma dec_hs s i : hs (dec s i) = hs s.
+Proof. unfold dec. destruct (nth_error (ents s) i); [|reflexivity]. destruct (_ <=? 0)%Z; reflexivity. Qed.
+Lemma finalize_hs s i : hs (finalize s i) = hs s.
+Proof.
+  unfold finalize. destruct (nth_error (ents s) i) as [e|]; [|reflexivity]. destruct (e_fin e); [reflexivity|].
+  rewrite dec_hs. reflexivity.
+Qed.
+Lemma rel_evict_hs s i : hs (rel_evict s i) = hs s.
+Proof.
+  unfold rel_evict. destruct (nth_error _ i) as [e|]; [|apply finalize_hs].
+  destruct (lru_find _ _) as [j|]; [|apply finalize_hs]. destruct (j =? i); simpl; apply finalize_hs.
+Qed.
+
+Lemma release_marks_fired s h i r ev :
+  nth_error (hs s) h = Some (i, r) -> nth_error (hs (fst (step s (Release h ev)))) h = Some (i, true).
+Proof.
+  intros H. simpl. rewrite H. simpl.
+  assert (H1 : nth_error (hs (if r then s else dec (set_hs s (upd (hs s) h (i, true))) i)) h = Some (i, true)).
+  { destruct r; [exact H|]. rewrite dec_hs. simpl. apply nth_upd_eq. eapply nth_some_lt; eauto. }
+  destruct ev; [|exact H1].
+  match goal with |- nth_error (hs ?x) h = _ => change x with (rel_evict (if r then s else dec (set_hs s (upd (hs s) h (i, true))) i) i) end.
+  rewrite rel_evict_hs. exact H1.
+Qed.
+
+Lemma double_release s h ev : fst (step (fst (step s (Release h ev))) (Release h false)) = fst (step s (Release h ev)).
+Proof.
+  destruct (nth_error (hs s) h) as [[i r]|] eqn:Hh.
+  - pose proof (release_marks_fired s h i r ev Hh) as Hm.
+    rewrite (release_fired_noevict _ _ _ Hm). reflexivity.
+  - simpl. rewrite Hh. simpl. rewrite Hh. reflexivity.
+Qed.
+
+(* releasing (even with evict) a value that already left the cache does not touch the cache *)
+Lemma release_old_keeps_cache s h i r e :
+  Inv s -> nth_error (hs s) h = Some (i, r) -> nth_error (ents s) i = Some e -> e_fin e = true ->
+  lru (fst (step s (Release h true))) = lru s.
+Proof.
+  intros I Hh He Ef. simpl. rewrite Hh. simpl.
+  set (s1 := if r then s else dec (set_hs s (upd (hs s) h (i, true))) i).
+  assert (I1 : Inv s1) by (unfold s1; destruct r; [exact I|apply release_dec_inv; assumption]).
+  assert (L1 : lru s1 = lru s).
+  { unfold s1. destruct r; [reflexivity|]. unfold dec; simpl. rewrite He. destruct (_ <=? 0)%Z; reflexivity. }
+  assert (He1 : exists e1, nth_error (ents s1) i = Some e1 /\ e_fin e1 = true).
+  { unfold s1. destruct r; [eauto|]. unfold dec; simpl. rewrite He.
+    destruct (_ <=? 0)%Z; simpl; rewrite nth_upd_eq by (eapply nth_some_lt; eauto); eexists; split; eauto. }
+  destruct He1 as (e1 & He1 & Ef1).
+  change (lru (rel_evict s1 i) = lru s).
+  rewrite (rel_evict_cases _ _ _ I1 He1), Ef1. exact L1.
+Qed.
+
+(* adding an existing key returns the cached value and changes neither membership nor callbacks *)
+Lemma add_existing s k i :
+  Inv s -> lru_find (lru s) k = Some i ->
+  snd (step s (Add k)) = Some (i, false)
+  /\ log (fst (step s (Add k))) = log s
+  /\ length (ents (fst (step s (Add k)))) = length (ents s)
+  /\ lru_find (lru (fst (step s (Add k)))) k = Some i
+  /\ (forall k' j, In (k', j) (lru (fst (step s (Add k)))) <-> In (k', j) (lru s)).
+Proof.
+  intros I Hf. simpl. rewrite Hf. simpl. unfold acquire, inc, touch. simpl.
+  destruct (nth_error (ents s) i) as [e|] eqn:He; simpl.
+  - rewrite upd_length, Nat.eqb_refl. repeat split; try reflexivity.
+    + intros [E|H]; [inversion E; subst; apply find_in; exact Hf|apply del_in in H; tauto].
+    + intros H. destruct (Nat.eq_dec k' k) as [->|N]; [|right; apply del_in; tauto].
+      left. apply (in_find _ _ _ (inv_nodup _ I)) in H. congruence.
+  - exfalso. apply find_in in Hf. destruct (inv_lru _ I _ _ Hf) as (e & He' & _). congruence.
+Qed.
